@@ -11,16 +11,23 @@ reference (`Yaql.EvalOrder.trace`, and its plain-Python transcription `py_trace`
 Per-element lambdas (last clause): pipelines of streaming operators with the same probe expressions INSIDE their
 lambdas, lazy pipelines as second collection of join / zip / concat, consumed completely or partly; the real log
 must equal the log of a lazy plain-Python transcription (`RefEval`: each lambda once per element consumed, in
-order, none for elements never consumed) and of `Yaql.PerElem` (the model the per_element theorems are about)."""
+order, none for elements never consumed) and of `Yaql.PerElem` (the model the per_element theorems are about).
+
+Spelling: every argument of a generated call is written positionally or by keyword (`harness/c11spell.py`: the alias
+of the live registry), in a context of the camelCase or of the Python naming convention; the reference does not
+depend on it (except that eager keyword arguments fire behind the positional ones, in source order): a lazily
+evaluated parameter stays lazy however its argument arrives."""
+import collections
 import json
 
+import c11spell
 import common
 import pyfacts
 import yaql
-from yaql.language import factory, specs, yaqltypes
+from yaql.language import conventions, factory, specs, yaqltypes
 
 ID = 'C11'
-LEAN_MODULES = ['Yaql.Props.C11', 'Yaql.Props.C11Gen']
+LEAN_MODULES = ['Yaql.Props.C11', 'Yaql.Props.C11Gen', 'Yaql.Props.C11Spell']
 P = 'Yaql.Props.C11.'
 REQUIRED_THEOREMS = [P + n for n in (
     'eager_once_in_order', 'log_independent_of_candidates', 'eager_fragment_trace', 'short_circuit_and',
@@ -30,20 +37,34 @@ REQUIRED_THEOREMS = [P + n for n in (
     'take_log', 'take_zero_log', 'take_short_log', 'simple_select', 'simple_filter', 'simple_takeWhile', 'simple_skipWhile',
     'applies_selectMany', 'applies_search', 'search_consumed', 'applies_each', 'applies_accumulate', 'applies_zip',
     'concat_log', 'joinRows_events', 'join_pass_events', 'join_empty_outer', 'thunk_per_call', 'thunk_slots')] + [
-    'Yaql.Props.C11Gen.lazy_params', 'Yaql.Props.C11Gen.lazy_functions']
+    'Yaql.Props.C11Gen.lazy_params', 'Yaql.Props.C11Gen.lazy_functions', 'Yaql.Props.C11Gen.lazy_keyword_spelling',
+    'Yaql.Props.C11Gen.lazy_rows_cover', 'Yaql.Props.C11Gen.lazy_rows_every_convention'] + [
+    'Yaql.Props.C11Spell.' + n for n in ('mapLoop_move', 'mapArgs_kw_move', 'mapArgs_kwd_keys', 'chooseOverload_single',
+                                         'lazy_spelling_invariant', 'lazy_spelling_invariant_of_table', 'MoveOk.of_table',
+                                         'mappedOf_move', 'matchesOf_move', 'choose_move', 'stage_move',
+                                         'lazy_spelling_invariant_family')]
 TRUSTED = ['the expression generator and its bookkeeping of operand values (taken from separate real evaluations of the '
-           'sub-expressions)', 'harness/gens/registry.py']
+           'sub-expressions)', 'harness/gens/registry.py', 'harness/gens/lazyspell.py',
+           'harness/c11spell.py (names and keyword aliases per convention, read from live contexts)']
 ASSUMPTIONS = ['selectAllCases / examine return lazy iterators (documented); the generator consumes them on the spot with '
                '.toList(), which is the point at which the model places their operands',
                'probes cannot raise; expressions whose evaluation raises are regenerated',
                'per-element part: sources are list literals of <= 5 integers, <= 4 stages; the values of lambda bodies on elements '
                'and the flags of short-circuit operators inside them come from separate real evaluations of the body on the '
                'element; pipelines in which a lambda raises on some element are regenerated',
-               'orderBy: only the bound "at most once per element" is checked (the order in which keys are taken is left open)']
+               'orderBy / thenBy: the bound "at most once per element" and the independence of the log from the spelling are '
+               'checked (the order in which keys are taken is left open)',
+               'spelling: keyword arguments are written behind the positional ones (the grammar rejects the other order), so '
+               'the arguments passed by keyword are a suffix of the parameters plus the ones behind a left-out optional one; '
+               'operators (and, or, ->, ., ?.) and `*args` parameters (coalesce, switch, selectCase, ..) have no keyword '
+               'spelling (C11Gen.lazy_keyword_spelling says which have one)',
+               'single calls (mergeWith, search, searchAll, replaceBy): flat dictionaries of integers and lists, 6 patterns x 5 '
+               'strings']
 
 
 def generate():
-    return pyfacts.run(['Registry'])['Registry']
+    r = pyfacts.run(['Registry', 'LazySpell'])
+    return dict(r['Registry'], lazy_spell=r['LazySpell'])
 
 
 ENGINE = factory.YaqlFactory().create()
@@ -55,8 +76,23 @@ def tick(id, value):
     return value
 
 
-def make_context(noverloads):
-    ctx = yaql.create_context().create_child_context()
+_SPELL = []
+
+
+def spell():
+    """names and keyword aliases per naming convention, read from live contexts"""
+    if not _SPELL:
+        _SPELL.append(c11spell.Spell())
+    return _SPELL[0]
+
+
+def conv_text(text, conv):
+    return text if conv == 'camel' else spell().convert(text, conv)
+
+
+def make_context(noverloads, conv='camel'):
+    root = yaql.create_context() if conv == 'camel' else yaql.create_context(convention=conventions.PythonConvention())
+    ctx = root.create_child_context()
     ctx.register_function(tick, name='tick')
     # `g`: 1-6 overloads of one name; the generated calls always hit the (int, int) one
     sigs = [(int, int), (str, int), (int, str), (str, str), (bool, bool), (type(None), int)][:noverloads]
@@ -144,6 +180,7 @@ class Gen:
             ('selectCase', self.select_case), ('switchCase', self.switch_case),
             ('coalesce-int', lambda d: self.coalesce(d, 'I')),
             ('indexOf', lambda d: e('{}.indexOf({})', 'LI', d)),
+            ('assert', lambda d: self.assert_(d, 'I')),
         ]
 
     def indexer(self, d):
@@ -168,8 +205,10 @@ class Gen:
             ('str+', lambda d: e('({} + {})', 'SS', d)), ('str', lambda d: e('str({})', 'I', d)),
             ('toUpper', lambda d: e('{}.toUpper()', 'S', d)),
             ('replace', lambda d: e('{}.replace({}, {})', 'SSS', d)),
-            ('format', lambda d: e("'{{0}}{{1}}'.format({}, {})", 'AA', d)),
+            ('trimLeft', lambda d: e('{}.trimLeft({})', 'SS', d)),
+            ('trimLeft-kw', lambda d: e('{}.trimLeft(chars => {})', 'SS', d)),
             ('concat', lambda d: e('concat({}, {})', 'SS', d)),
+            ('assert-str', lambda d: self.assert_(d, 'S')),
         ]
 
     def p_L(self):
@@ -245,7 +284,8 @@ class Gen:
             k='coalesce', nulls=[self.isnull(a[0]) for a in args], **{'as': [a[1] for a in args]})
 
     def def_calls(self, d):
-        """def(f, body) -> [f(), e, f(), ..]: the lazily passed body is evaluated at every call of f"""
+        """def(f, body) -> [f(), e, f(), ..]: the lazily passed body is evaluated at every call of f, however `def` is
+        spelled (`def(f, func => body)`, `def(func => body, name => f)`, ..)"""
         self.ndef = getattr(self, 'ndef', 0) + 1
         f = 'fn%d' % self.ndef
         body, xb = self.expr('A', d)
@@ -259,8 +299,34 @@ class Gen:
                 slots.append(False)
                 others.append(x)
                 parts.append(t)
-        text = '(def(%s, %s) -> [%s])' % (f, body, ', '.join(parts))
+        text = '(def(%s) -> [%s])' % (self.spelled('def', False, [f, body]), ', '.join(parts))
         return text, dict(k='defCalls', b=xb, sl=slots, os=others)
+
+    def spelled(self, name, method, texts):
+        """the argument list of a call of the library function `name` in a random spelling (positional / by keyword under
+        the alias of the live registry); only where the keyword names are the same under every convention, because the
+        text is converted to other conventions by function names only"""
+        e = spell().entry('camel', name, method=method)
+        names = e.argnames(method)[:len(texts)]
+        same = all(spell().entry('python', name, method=method).alias[n] == e.alias[n] for n in names)
+        sp = c11spell.spelling(self.rng, e, names, [t is not None for t in texts], allow_kw=same)
+        if sp['kw']:
+            self.features.add('%s-by-keyword' % name)
+        return c11spell.write_args(e, names, texts, sp)
+
+    def assert_(self, d, ty):
+        """obj.assert(condition, message): obj and message are evaluated when the call is made (message behind obj even
+        when it is written in front of the condition or by keyword), the lazily passed condition once, in the body"""
+        r, xr = self.expr(ty, d)
+        c, xc = self.expr('B', d)
+        t, xt = self.tick('true', dict(k='leaf'))
+        cond, xcond = '(%s or %s)' % (c, t), dict(k='or', a=xc, b=xt, t=self.truthy(c))
+        ks = [xr]
+        m = None
+        if self.rng.random() < 0.6:
+            m, xm = self.expr('S', d)
+            ks.append(xm)
+        return '%s.assert(%s)' % (r, self.spelled('assert', True, [cond, m])), dict(k='eager', ks=ks + [xcond])
 
     def map_literal(self, d):
         ks = [self.tick("'k%d'" % i, dict(k='leaf')) for i in range(2)]
@@ -408,6 +474,13 @@ class LamGen(Gen):
     def p_N(self):
         return [p for p in Gen.p_N(self) if p[0] != 'elvis']
 
+    # `assert` binds `$` anew inside its condition: not inside bodies whose leaves mean the element by `$`
+    def p_I(self):
+        return [p for p in Gen.p_I(self) if p[0] != 'assert']
+
+    def p_S(self):
+        return [p for p in Gen.p_S(self) if p[0] != 'assert-str']
+
     def body(self, ty, var, depth):
         """-> {'text', 'x' (flags deferred), 'vars'}; `var`: how the lambda refers to the (integer) element"""
         self.var = var
@@ -425,7 +498,52 @@ class LamGen(Gen):
 PE_LAMBDA_OPS = ['select', 'where', 'takeWhile', 'skipWhile', 'selectMany', 'distinct', 'accumulate']
 PE_PLAIN_OPS = ['take', 'skip', 'memorize', 'enumerate']
 PE_SECOND_OPS = ['join', 'zip', 'concat']
-PE_TERMINALS = ['any', 'all', 'indexWhere', 'first', 'len', 'toDict', 'aggregate', 'lastIndexWhere', 'anyNoPred', 'groupBy']
+PE_TERMINALS = ['any', 'all', 'indexWhere', 'first', 'len', 'toDict', 'aggregate', 'lastIndexWhere', 'anyNoPred', 'groupBy',
+                'sliceWhere', 'splitWhere', 'allNoPred']
+# other names the same definition is registered under
+PE_ALIASES = {'where': ['filter'], 'select': ['map'], 'aggregate': ['reduce'], 'take': ['limit']}
+# the keys of a stage spec that hold the arguments, in the positional order of the parameters behind the receiver
+PE_SLOTS = {'select': ['body'], 'where': ['body'], 'takeWhile': ['body'], 'skipWhile': ['body'], 'selectMany': ['body'],
+            'distinct': ['body'], 'accumulate': ['body', 'seed'], 'aggregate': ['body', 'seed'], 'take': ['k'], 'skip': ['k'],
+            'join': ['other', 'pred', 'sel'], 'any': ['body'], 'all': ['body'], 'indexWhere': ['body'],
+            'lastIndexWhere': ['body'], 'toDict': ['body', 'body2'], 'groupBy': ['body', 'body2', 'body3'],
+            'sliceWhere': ['body'], 'splitWhere': ['body'], 'orderBy': ['body'], 'orderByDescending': ['body'],
+            'thenBy': ['body'], 'thenByDescending': ['body'], 'anyNoPred': [], 'allNoPred': [], 'memorize': [],
+            'enumerate': [], 'first': [], 'len': []}
+PE_NAMES = {'anyNoPred': 'any', 'allNoPred': 'all'}
+# the arguments of the generating functions (all parameters: they are not methods)
+SRC_SLOTS = {'generate': ['init', 'pred', 'prod', 'sel', 'decycle'],
+             'generateMany': ['init', 'prod', 'sel', 'decycle', 'depthFirst']}
+ORDER_OPS = ('orderBy', 'orderByDescending', 'thenBy', 'thenByDescending')
+
+
+def stage_entry(st, conv):
+    name = st.get('as') or PE_NAMES.get(st['op'], st['op'])
+    return spell().entry(conv, name, method=True)
+
+
+def stage_names(st):
+    """[(slot key, python name of the parameter, argument present)] of a stage with named parameters"""
+    e = stage_entry(st, 'camel')
+    slots = PE_SLOTS[st['op']]
+    return [(k, n, st.get(k) is not None) for k, n in zip(slots, e.argnames(True))]
+
+
+def src_names(src):
+    e = spell().entry('camel', src['kind'], method=False)
+    return [(k, n, src.get(k) is not None) for k, n in zip(SRC_SLOTS[src['kind']], e.argnames(False))]
+
+
+def sp_of(d, sn):
+    """the spelling of a stage / source (replays written before spellings existed: everything positional)"""
+    return d.get('sp') or dict(npos=len(sn), kw=[])
+
+
+def eager_ids(sn, sp, ids):
+    """the probes of the eagerly evaluated arguments (`ids`: slot key -> probe id) in the order they fire under the
+    spelling `sp`: positional arguments first, keyword arguments behind them in source order"""
+    key = {n: k for k, n, _ in sn}
+    return [ids[key[n]] for n in c11spell.eager_order([n for _, n, _ in sn], sp) if ids.get(key[n])]
 
 
 class PipeGen:
@@ -439,21 +557,56 @@ class PipeGen:
         b['vars'] = ['$1', '$2'] if two else ['$']
         return b
 
-    def source(self):
+    def newid(self):
+        self.g.n += 1
+        return self.g.n
+
+    def spelled(self, d, sn, entry):
+        """chooses how the arguments of the stage / source `d` are written"""
+        d['sp'] = c11spell.spelling(self.rng, entry, [n for _, n, _ in sn], [pr for _, _, pr in sn])
+        return d
+
+    def source(self, generated=True):
         r = self.rng
+        if generated and r.random() < 0.12:
+            kind = r.choice(['generate', 'generateMany'])
+            src = dict(kind=kind, init=r.choice([0, 1, 2, 3]), ids={}, decycle=True)
+            if r.random() < 0.3:
+                src['ids']['init'] = self.newid()
+            if r.random() < 0.3:
+                src['ids']['decycle'] = self.newid()
+            if kind == 'generate':
+                src['pred'] = self.body('B', '$')
+                src['prod'] = self.mod_body(self.body('I', '$'), 6)
+            else:
+                bs = [self.mod_body(self.body('I', '$'), 5) for _ in range(r.choice([0, 1, 1, 2]))]
+                src['prod'] = dict(text='[%s]' % ', '.join(b['text'] for b in bs), x=dict(k='eager', ks=[b['x'] for b in bs]),
+                                   vars=['$'])
+                if r.random() < 0.4:
+                    src['depthFirst'] = r.choice([True, False])
+                    if r.random() < 0.3:
+                        src['ids']['depthFirst'] = self.newid()
+            if r.random() < 0.5:
+                src['sel'] = self.body('I', '$')
+            self.ops.add(kind)
+            return self.spelled(src, src_names(src), spell().entry('camel', kind, method=False))
         vals = [r.choice([0, 1, 2, 3, 4, 5, 7]) for _ in range(r.choice([0, 1, 2, 3, 3, 4, 5]))]
-        src = dict(vals=vals, ids=None)
+        src = dict(kind='list', vals=vals, ids=None)
         if r.random() < 0.3:
-            src['ids'] = []
-            for _ in vals:
-                self.g.n += 1
-                src['ids'].append(self.g.n)
+            src['ids'] = [self.newid() for _ in vals]
         return src
 
-    def pipe(self, nstages, allow_second=True, terminal_ok=False):
+    @staticmethod
+    def mod_body(b, m):
+        """keeps the generated values in a small range (with `decycle` the generation then ends)"""
+        return dict(b, text='(%s) mod %d' % (b['text'], m))
+
+    def pipe(self, nstages, allow_second=True, terminal_ok=False, conv=None):
         """-> pipeline spec; the elements handed on are integers except behind zip / enumerate (pairs)"""
         r = self.rng
-        p = dict(src=self.source(), stages=[])
+        p = dict(src=self.source(generated=allow_second), stages=[])
+        if conv is not None:
+            p['conv'] = conv
         var = '$'
         for i in range(nstages):
             last = i == nstages - 1
@@ -462,7 +615,6 @@ class PipeGen:
                 pool = PE_TERMINALS
             op = r.choice(pool)
             st = dict(op=op)
-            self.ops.add(op)
             if op in ('select', 'selectMany'):
                 st['body'] = self.body('I', var)
                 if op == 'selectMany' and r.random() < 0.6:
@@ -470,12 +622,22 @@ class PipeGen:
                     st['body'] = dict(text='[%s, %s]' % (st['body']['text'], b2['text']),
                                       x=dict(k='eager', ks=[st['body']['x'], b2['x']]), vars=['$'])
                 var = '$'
-            elif op in ('where', 'takeWhile', 'skipWhile', 'any', 'all', 'indexWhere', 'lastIndexWhere'):
+            elif op in ('where', 'takeWhile', 'skipWhile', 'any', 'all', 'indexWhere', 'lastIndexWhere', 'sliceWhere',
+                        'splitWhere'):
                 st['body'] = self.body('B', var)
-            elif op in ('distinct', 'groupBy'):
+            elif op == 'distinct':
+                if r.random() < 0.85 or var != '$':
+                    st['body'] = self.body('I', var)
+            elif op == 'groupBy':
                 st['body'] = self.body('I', var)
+                if r.random() < 0.5:
+                    st['body2'] = self.body('I', var)
+                if r.random() < 0.4:
+                    st['body3'] = self.body('I', 'len($)')
             elif op == 'toDict':
-                st['body'], st['body2'] = self.body('I', var), self.body('A', var)
+                st['body'] = self.body('I', var)
+                if r.random() < 0.75:
+                    st['body2'] = self.body('A', var)
             elif op in ('accumulate', 'aggregate'):
                 if var != '$':
                     st = dict(op='memorize')
@@ -484,11 +646,14 @@ class PipeGen:
                     if '$1' not in st['body']['text'] or '$2' not in st['body']['text']:
                         o = '$2' if '$1' in st['body']['text'] else '$1'
                         st['body'] = dict(text='(%s + %s)' % (st['body']['text'], o), x=st['body']['x'], vars=['$1', '$2'])
+                    if r.random() < 0.35:
+                        st['seed'] = r.choice([0, 1, 5])
+                        if r.random() < 0.4:
+                            st['id'] = self.newid()
             elif op in ('take', 'skip'):
                 st['k'] = r.choice([0, 1, 1, 2, 2, 3])
                 if r.random() < 0.25:
-                    self.g.n += 1
-                    st['id'] = self.g.n
+                    st['id'] = self.newid()
             elif op == 'enumerate':
                 if var != '$' or not allow_second:          # secondary pipelines deliver integers
                     st = dict(op='memorize')
@@ -512,38 +677,66 @@ class PipeGen:
                     st['other'] = self.pipe(r.choice([0, 1, 1, 2]), allow_second=False)
                     st['pred'] = self.body('B', r.choice(['$1', '$2']), two=True)
                     st['sel'] = self.body('I', r.choice(['$1', '$2']), two=True)
+            op = st['op']
+            self.ops.add(op)
+            if op in PE_ALIASES and r.random() < 0.25:
+                st['as'] = r.choice(PE_ALIASES[op])
+            if op in PE_SLOTS:
+                self.spelled(st, stage_names(st), stage_entry(st, 'camel'))
             p['stages'].append(st)
         return p
 
+    def order_pipe(self):
+        """<collection>.orderBy(key)[.thenBy(key2)]"""
+        r = self.rng
+        p = self.pipe(r.choice([0, 0, 1]), allow_second=False)
+        for i in range(r.choice([1, 1, 2])):
+            op = r.choice(ORDER_OPS[:2] if i == 0 else ORDER_OPS[2:])
+            st = dict(op=op, body=self.body('I', '$'))
+            p['stages'].append(self.spelled(st, stage_names(st), stage_entry(st, 'camel')))
+        return p
 
-def src_text(src):
-    if src['ids'] is None:
-        return '[%s]' % ', '.join(str(v) for v in src['vals'])
-    return '[%s]' % ', '.join('tick(%d, %d)' % (i, v) for i, v in zip(src['ids'], src['vals']))
+
+def src_text(src, conv='camel'):
+    if src.get('kind', 'list') == 'list':
+        if src['ids'] is None:
+            return '[%s]' % ', '.join(str(v) for v in src['vals'])
+        return '[%s]' % ', '.join('tick(%d, %d)' % (i, v) for i, v in zip(src['ids'], src['vals']))
+    e = spell().entry(conv, src['kind'], method=False)
+    sn = src_names(src)
+    texts = []
+    for k, _, present in sn:
+        if not present:
+            texts.append(None)
+        elif isinstance(src[k], dict):
+            texts.append(conv_text(src[k]['text'], conv))
+        else:
+            lit = json.dumps(src[k])
+            texts.append('tick(%d, %s)' % (src['ids'][k], lit) if src['ids'].get(k) else lit)
+    return '%s(%s)' % (e.name, c11spell.write_args(e, [n for _, n, _ in sn], texts, sp_of(src, sn)))
 
 
-def pipe_text(p):
-    t = src_text(p['src'])
+def pipe_text(p, conv=None):
+    conv = conv or p.get('conv', 'camel')
+    t = src_text(p['src'], conv)
     for st in p['stages']:
         op = st['op']
-        b = lambda k='body': st[k]['text']
-        if op in ('select', 'where', 'takeWhile', 'skipWhile', 'selectMany', 'distinct', 'any', 'all', 'indexWhere',
-                  'lastIndexWhere', 'accumulate', 'aggregate', 'groupBy', 'orderBy'):
-            t = '%s.%s(%s)' % (t, op, b())
-        elif op == 'toDict':
-            t = '%s.toDict(%s, %s)' % (t, b(), b('body2'))
-        elif op in ('take', 'skip'):
-            t = '%s.%s(%s)' % (t, op, 'tick(%d, %d)' % (st['id'], st['k']) if st.get('id') else st['k'])
-        elif op in ('memorize', 'enumerate', 'first', 'len'):
-            t = '%s.%s()' % (t, op)
-        elif op == 'anyNoPred':
-            t = '%s.any()' % t
-        elif op in ('zip', 'concat'):
-            t = '%s.%s(%s)' % (t, op, pipe_text(st['other']))
-        elif op == 'join':
-            t = '%s.join(%s, %s, %s)' % (t, pipe_text(st['other']), b('pred'), b('sel'))
-        else:
-            raise ValueError(op)
+        if op in ('zip', 'concat'):
+            t = '%s.%s(%s)' % (t, op, pipe_text(st['other'], conv))
+            continue
+        e = stage_entry(st, conv)
+        sn = stage_names(st)
+        texts = []
+        for k, _, present in sn:
+            if not present:
+                texts.append(None)
+            elif k in ('k', 'seed'):
+                texts.append('tick(%d, %d)' % (st['id'], st[k]) if st.get('id') else str(st[k]))
+            elif k == 'other':
+                texts.append(pipe_text(st['other'], conv))
+            else:
+                texts.append(conv_text(st[k]['text'], conv))
+        t = '%s.%s(%s)' % (t, e.name, c11spell.write_args(e, [n for _, n, _ in sn], texts, sp_of(st, sn)))
     return t
 
 
@@ -564,10 +757,18 @@ class Memo:
             i += 1
 
 
+def produced(v):
+    if not isinstance(v, tuple):
+        raise Bad('the producer of generateMany gives %r' % (v,))
+    return v
+
+
 class RefEval:
     """the reference evaluation order, as lazy Python: arguments that are not lambdas are evaluated when the expression
-    is built, receiver first, left to right; a lambda is applied once to each element its operator consumes, when
-    it consumes it; an operator consumes an element only when a result that needs it is asked for"""
+    is built, receiver first, then the positional ones left to right, then the keyword ones in source order; a lambda
+    is applied once to each element its operator consumes, when it consumes it - however the lambda was passed
+    (positionally or by keyword, under whatever naming convention); an operator consumes an element only when a
+    result that needs it is asked for"""
     def __init__(self, ctx):
         self.ctx, self.log = ctx, []
 
@@ -576,10 +777,44 @@ class RefEval:
         self.log += py_trace(inst(body['x'], lambda fl: flagval(fl, self.ctx, env)))
         return freeze(ev(body['text'], self.ctx, env))
 
+    def source(self, src):
+        ap = self.apply
+        if src.get('kind', 'list') == 'list':
+            if src['ids'] is not None:
+                self.log += src['ids']
+            return iter(tuple(src['vals']))
+        self.log += eager_ids(src_names(src), src['sp'], src['ids'])
+        sel = src.get('sel')
+        if src['kind'] == 'generate':
+            def gen():
+                x, past = src['init'], set()
+                while ap(src['pred'], x):
+                    if src['decycle']:
+                        if x in past:
+                            break
+                        past.add(x)
+                    yield ap(sel, x) if sel else x
+                    x = ap(src['prod'], x)
+            return gen()
+
+        def many():
+            queue, past = collections.deque([src['init']]), set()
+            while queue:
+                x = queue.popleft()
+                if src['decycle']:
+                    if x in past:
+                        continue
+                    past.add(x)
+                yield ap(sel, x) if sel else x
+                new = produced(ap(src['prod'], x))
+                if src.get('depthFirst'):
+                    queue.extendleft(reversed(new))
+                else:
+                    queue.extend(new)
+        return many()
+
     def build(self, p):
-        if p['src']['ids'] is not None:
-            self.log += p['src']['ids']
-        o = iter(tuple(p['src']['vals']))
+        o = self.source(p['src'])
         for st in p['stages']:
             o = self.stage(o, st)
         return o
@@ -612,14 +847,20 @@ class RefEval:
             def dist():
                 seen = set()
                 for v in up:
-                    k = ap(b, v)
+                    k = ap(b, v) if b else v
                     if k not in seen:
                         seen.add(k)
                         yield v
             return dist()
         if op == 'accumulate':
+            if st.get('id'):
+                self.log.append(st['id'])
+
             def acc():
-                first = True
+                first = st.get('seed') is None
+                a = st.get('seed')
+                if not first:
+                    yield a
                 for v in up:
                     a = v if first else ap(b, a, v)
                     first = False
@@ -651,6 +892,8 @@ class RefEval:
             return False
         if op == 'all':
             return all(ap(b, v) for v in up)
+        if op == 'allNoPred':
+            return all(v for v in up)
         if op == 'indexWhere':
             for i, v in enumerate(up):
                 if ap(b, v):
@@ -672,18 +915,44 @@ class RefEval:
             d = {}
             for v in up:
                 k = ap(b, v)
-                d[k] = ap(st['body2'], v)
+                d[k] = ap(st['body2'], v) if st.get('body2') else v
             return d
         if op == 'aggregate':
+            if st.get('id'):
+                self.log.append(st['id'])
             try:
+                if st.get('seed') is not None:
+                    return functools.reduce(lambda a, v: ap(b, a, v), up, st['seed'])
                 return functools.reduce(lambda a, v: ap(b, a, v), up)
             except TypeError:
                 raise Bad('aggregate of nothing')
         if op == 'groupBy':
             g = {}
             for v in up:
-                g.setdefault(ap(b, v), []).append(v)
+                val = ap(st['body2'], v) if st.get('body2') else v       # the value, then the key
+                g.setdefault(ap(b, v), []).append(val)
+            if st.get('body3'):
+                return tuple((k, ap(st['body3'], tuple(vs))) for k, vs in g.items())
             return tuple((k, tuple(vs)) for k, vs in g.items())
+        if op in ('sliceWhere', 'splitWhere'):
+            lst = list(up)                          # the collection is made a list first, then the predicate goes over it
+            flags = [ap(b, v) for v in lst]
+            out, cur = [], []
+            for i, (v, f) in enumerate(zip(lst, flags)):
+                if op == 'splitWhere':
+                    if f:
+                        out.append(cur)
+                        cur = []
+                    else:
+                        cur.append(v)
+                else:
+                    if i > 0 and f != flags[i - 1]:
+                        out.append(cur)
+                        cur = []
+                    cur.append(v)
+            if op == 'sliceWhere' and cur or op == 'splitWhere' and lst and not flags[-1]:
+                out.append(cur)
+            return tuple(tuple(c) for c in out)
         raise ValueError(op)
 
 
@@ -703,15 +972,56 @@ class Describe:
     def val(self, body, *args):
         return freeze(ev(body['text'], self.ctx, dict(zip(body['vars'], args))))
 
+    def source(self, src):
+        """-> (json of the source, its elements)"""
+        ticks = lambda ids: dict(k='eager', ks=[dict(k='tick', id=i, a=LEAF) for i in ids])
+        if src.get('kind', 'list') == 'list':
+            return dict(n=len(src['vals']), x=ticks(src['ids'] or [])), list(src['vals'])
+        outs, cur, elems, past = [], [], [], set()
+        sel = src.get('sel')
+        if src['kind'] == 'generate':
+            x = src['init']
+            while len(elems) < 50:
+                cur.append(self.x(src['pred'], x))
+                if not self.val(src['pred'], x) or (src['decycle'] and x in past):
+                    break
+                past.add(x)
+                if sel:
+                    cur.append(self.x(sel, x))
+                elems.append(self.val(sel, x) if sel else x)
+                outs.append(cur)
+                cur = [self.x(src['prod'], x)]
+                x = self.val(src['prod'], x)
+        else:
+            queue = collections.deque([src['init']])
+            while queue and len(elems) < 50:
+                x = queue.popleft()
+                if src['decycle']:
+                    if x in past:
+                        continue
+                    past.add(x)
+                if sel:
+                    cur.append(self.x(sel, x))
+                elems.append(self.val(sel, x) if sel else x)
+                outs.append(cur)
+                cur = [self.x(src['prod'], x)]
+                new = produced(self.val(src['prod'], x))
+                if src.get('depthFirst'):
+                    queue.extendleft(reversed(new))
+                else:
+                    queue.extend(new)
+        if len(elems) >= 50:
+            raise Bad('the generation does not end')
+        return dict(n=len(elems), x=ticks(eager_ids(src_names(src), src['sp'], src['ids'])), lazy=True,
+                    outs=outs, fin=cur), elems
+
     def pipe(self, p):
         """-> (json for the driver, all elements of the pipeline)"""
-        src = p['src']
-        ids = src['ids'] or []
-        j = dict(src=dict(n=len(src['vals']), x=dict(k='eager', ks=[dict(k='tick', id=i, a=LEAF) for i in ids])), stages=[])
-        elems = list(src['vals'])
+        sj, elems = self.source(p['src'])
+        j = dict(src=sj, stages=[])
         for st in p['stages']:
             sj, elems = self.stage(st, elems)
-            j['stages'].append(sj)
+            j['stages'] += sj if isinstance(sj, list) else [sj]
         return j, elems
 
     def stage(self, st, elems):
@@ -736,22 +1046,24 @@ class Describe:
             return dict(op='selectMany', bodies=xs, counts=[len(v) if isinstance(v, tuple) else 1 for v in vs]), out
         if op == 'distinct':
             seen, keep = set(), []
-            for v in vs:
+            for v in (vs if b is not None else elems):
                 keep.append(v not in seen)
                 seen.add(v)
             return dict(op='filter', bodies=xs, flags=keep), [e for e, k in zip(elems, keep) if k]
         if op in ('accumulate', 'aggregate'):
-            bodies, out = [], []
+            eager = [dict(k='tick', id=st['id'], a=LEAF)] if st.get('id') else []
+            seeded = st.get('seed') is not None
+            bodies, out = [], [st['seed']] if seeded else []
             for i, v in enumerate(elems):
-                if i == 0:
+                if i == 0 and not seeded:
                     bodies.append(LEAF)
                     out.append(v)
                 else:
                     bodies.append(self.x(b, out[-1], v))
                     out.append(self.val(b, out[-1], v))
             if op == 'accumulate':
-                return dict(op='accumulate', bodies=bodies, seeded=False), out
-            return dict(op='each', bodies=bodies, nout=1), out[-1:]
+                return dict(op='accumulate', bodies=bodies, seeded=seeded, eager=eager), out
+            return dict(op='each', bodies=bodies, nout=1, eager=eager), out[-1:]
         if op in ('take', 'skip'):
             eager = [dict(k='tick', id=st['id'], a=LEAF)] if st.get('id') else []
             return dict(op=op, k=st['k'], eager=eager), (elems[:st['k']] if op == 'take' else elems[st['k']:])
@@ -783,16 +1095,43 @@ class Describe:
             return dict(op='search', bodies=xs, flags=[bool(v) for v in vs]), [None]
         if op == 'all':
             return dict(op='search', bodies=xs, flags=[not v for v in vs]), [None]
+        if op == 'allNoPred':
+            return dict(op='search', bodies=[], flags=[not v for v in elems]), [None]
         if op in ('anyNoPred', 'first'):
             return dict(op='search', bodies=[], flags=[True] * len(elems)), [None]
-        if op in ('lastIndexWhere', 'groupBy'):
+        if op == 'lastIndexWhere':
             return dict(op='each', bodies=xs, nout=1), [None]
         if op == 'len':
             return dict(op='each', bodies=[], nout=1), [None]
         if op == 'toDict':
-            return dict(op='each', nout=1, bodies=[dict(k='eager', ks=[x1, self.x(st['body2'], v)])
-                                                    for x1, v in zip(xs, elems)]), [None]
+            return dict(op='each', nout=1, bodies=[
+                dict(k='eager', ks=[x1] + ([self.x(st['body2'], v)] if st.get('body2') else []))
+                for x1, v in zip(xs, elems)]), [None]
+        if op == 'groupBy':
+            groups = {}
+            for v, k in zip(elems, vs):
+                groups.setdefault(k, []).append(self.val(st['body2'], v) if st.get('body2') else v)
+            each = dict(op='each', nout=len(groups), bodies=[
+                dict(k='eager', ks=([self.x(st['body2'], v)] if st.get('body2') else []) + [x1])
+                for x1, v in zip(xs, elems)])
+            if not st.get('body3'):
+                return each, [None] * len(groups)
+            return [each, dict(op='select', bodies=[self.x(st['body3'], tuple(g)) for g in groups.values()])], \
+                [None] * len(groups)
+        if op in ('sliceWhere', 'splitWhere'):
+            # the whole collection first (to_list), then the predicate on element after element
+            return [dict(op='each', bodies=[], nout=len(elems)), dict(op='each', bodies=xs, nout=1)], [None]
         raise ValueError(op)
+
+
+_CONV_CTX = {}
+
+
+def conv_context(conv, noverloads=3):
+    """the context (with `tick` and `g`) of a naming convention"""
+    if (conv, noverloads) not in _CONV_CTX:
+        _CONV_CTX[(conv, noverloads)] = make_context(noverloads, conv)
+    return _CONV_CTX[(conv, noverloads)]
 
 
 def real_pipe(text, ctx):
@@ -807,13 +1146,36 @@ def real_pipe(text, ctx):
     return freeze(v), log, None
 
 
+def positional(p):
+    """the same pipeline in the plain spelling: default convention, every argument in its positional slot (arguments
+    behind a left-out optional one keep their keyword)"""
+    def plain(d, sn):
+        present = [pr for _, _, pr in sn]
+        gap = present.index(False) if False in present else len(present)
+        return dict(d, sp=dict(npos=gap, kw=[n for i, (_, n, pr) in enumerate(sn) if i >= gap and pr]))
+    q = dict(p, conv='camel', stages=[])
+    if p['src'].get('sp'):
+        q['src'] = plain(p['src'], src_names(p['src']))
+    for st in p['stages']:
+        st = plain(st, stage_names(st)) if st.get('sp') else st
+        if st.get('other'):
+            st = dict(st, other=positional(st['other']))
+        q['stages'].append(st)
+    return q
+
+
+def is_plain(p):
+    return pipe_text(p) == pipe_text(positional(p))
+
+
 def pipe_case(p, ctx):
-    """-> dict(text, ref_log, ref_value, table) or raises Bad (a lambda raises on some element, first() of nothing..)"""
+    """-> dict(text, ref_log, ref_value, table) or raises Bad (a lambda raises on some element, first() of nothing..);
+    `ctx`: the context of the default convention, in which the harness evaluates bodies on elements"""
     text = pipe_text(p)
     ref = RefEval(ctx)
     value = ref.run(p)
     table, _ = Describe(ctx).pipe(p)
-    return dict(text=text, ref_log=ref.log, ref_value=value, table=table)
+    return dict(text=text, ref_log=ref.log, ref_value=value, table=table, conv=p.get('conv', 'camel'))
 
 
 def canon_value(v):
@@ -827,15 +1189,28 @@ def canon_value(v):
 def pipe_verdict(p, ctx, model_log, c=None):
     """-> (failure or None, info); failure = (kind, key, what)"""
     c = c or pipe_case(p, ctx)
-    value, log, err = real_pipe(c['text'], ctx)
+    value, log, err = real_pipe(c['text'], conv_context(c['conv']))
     info = dict(c, real_log=log, real_err=err)
     ops = '.'.join(st['op'] for st in p['stages'])
+    where = '' if c['conv'] == 'camel' else ' (in a context of the %s naming convention)' % c['conv']
+    if err is not None or log != c['ref_log']:
+        # does the plain spelling of the same call behave?  Then it is the spelling that changes the evaluation
+        plain = positional(p)
+        ptext = pipe_text(plain)
+        if ptext != c['text']:
+            _, plog, perr = real_pipe(ptext, conv_context('camel'))
+            if perr is None and plog == c['ref_log']:
+                return ('oracle', 'spelling', '%s%s: %s; the same call with every argument in its positional slot, %s, logs '
+                        '%r, which is each lambda once per element consumed, in order: an argument of a lazily evaluated '
+                        'parameter must stay lazy when it is passed by keyword' % (
+                            c['text'], where, 'raises ' + err if err is not None else 'real log %r' % (log,), ptext,
+                            plog)), info
     if err is not None:
-        return ('oracle', 'per-element-raises', '%s: raises %s; the reference gives %r with log %r' % (
-            c['text'], err, c['ref_value'], c['ref_log'])), info
+        return ('oracle', 'per-element-raises', '%s%s: raises %s; the reference gives %r with log %r' % (
+            c['text'], where, err, c['ref_value'], c['ref_log'])), info
     if log != c['ref_log']:
-        return ('oracle', 'per-element', '%s: real log %r; each lambda once per element consumed, in order, gives %r' % (
-            c['text'], log, c['ref_log'])), info
+        return ('oracle', 'per-element', '%s%s: real log %r; each lambda once per element consumed, in order, gives %r' % (
+            c['text'], where, log, c['ref_log'])), info
     if canon_value(value) != canon_value(c['ref_value']):
         return ('mismatch', 'per-element-value', '%s: real value %r, transcription %r (the harness computes the wrong '
                 'elements)' % (c['text'], value, c['ref_value'])), info
@@ -854,13 +1229,24 @@ def ask_pipes(drv, tables):
     return out
 
 
-def pipe_fails(p, ctx, drv, kind):
+def pipe_fails(p, ctx, drv, kind, key=None):
     try:
         c = pipe_case(p, ctx)
         f, _ = pipe_verdict(p, ctx, ask_pipes(drv, [c['table']])[0])
     except Exception:
         return None
-    return f if f and f[0] == kind else None
+    return f if f and f[0] == kind and (key is None or f[1] == key) else None
+
+
+def respell(d, sn):
+    """the spelling of `d` after an optional argument was dropped / everything that can be is made positional"""
+    present = [pr for _, _, pr in sn]
+    gap = present.index(False) if False in present else len(present)
+    npos = min(d['sp']['npos'], gap)
+    names = [n for _, n, _ in sn]
+    kw = [n for n in d['sp']['kw'] if present[names.index(n)]]
+    kw += [n for i, n in enumerate(names) if i >= npos and present[i] and n not in kw]
+    return dict(d, sp=dict(npos=npos, kw=kw))
 
 
 def sub_pipes(p):
@@ -869,27 +1255,62 @@ def sub_pipes(p):
     for i in range(n - 1, -1, -1):
         yield dict(p, stages=p['stages'][:i] + p['stages'][i + 1:])
     src = p['src']
-    for i in range(len(src['vals'])):
-        yield dict(p, src=dict(vals=src['vals'][:i] + src['vals'][i + 1:],
-                               ids=None if src['ids'] is None else src['ids'][:i] + src['ids'][i + 1:]))
-    if src['ids'] is not None:
-        yield dict(p, src=dict(vals=src['vals'], ids=None))
+    if src.get('kind', 'list') == 'list':
+        for i in range(len(src['vals'])):
+            yield dict(p, src=dict(kind='list', vals=src['vals'][:i] + src['vals'][i + 1:],
+                                   ids=None if src['ids'] is None else src['ids'][:i] + src['ids'][i + 1:]))
+        if src['ids'] is not None:
+            yield dict(p, src=dict(kind='list', vals=src['vals'], ids=None))
+    else:
+        for vals in ([], [1], [1, 2], [3, 1, 2]):
+            yield dict(p, src=dict(kind='list', vals=vals, ids=None))
+        if src['ids']:
+            yield dict(p, src=dict(src, ids={}))
+        for k in ('sel', 'depthFirst'):
+            if src.get(k) is not None:
+                q = {kk: v for kk, v in src.items() if kk != k}
+                q['ids'] = {kk: v for kk, v in src['ids'].items() if kk != k}
+                yield dict(p, src=respell(q, src_names(q)))
+    if p.get('conv', 'camel') != 'camel':
+        yield dict(p, conv='camel')
     for i, st in enumerate(p['stages']):
+        put = lambda q: dict(p, stages=p['stages'][:i] + [q] + p['stages'][i + 1:])
         if st.get('other'):
             for q in sub_pipes(st['other']):
-                yield dict(p, stages=p['stages'][:i] + [dict(st, other=q)] + p['stages'][i + 1:])
+                yield put(dict(st, other=q))
         if st.get('id'):
-            yield dict(p, stages=p['stages'][:i] + [{k: v for k, v in st.items() if k != 'id'}] + p['stages'][i + 1:])
+            yield put({k: v for k, v in st.items() if k != 'id'})
+        if st.get('as'):
+            yield put({k: v for k, v in st.items() if k != 'as'})
+        for k in ('body3', 'body2', 'seed') + (('body',) if st['op'] == 'distinct' else ()):
+            if st.get(k) is not None:
+                q = {kk: v for kk, v in st.items() if kk != k and not (k == 'seed' and kk == 'id')}
+                yield put(respell(q, stage_names(q)))
+        if st.get('sp') and st['sp']['kw']:
+            sn = stage_names(st)
+            # one keyword argument less: the first one written by keyword goes to its slot, if that is the next slot
+            names = [n for _, n, _ in sn]
+            nxt = st['sp']['npos']
+            if nxt < len(names) and names[nxt] in st['sp']['kw']:
+                yield put(dict(st, sp=dict(npos=nxt + 1, kw=[n for n in st['sp']['kw'] if n != names[nxt]])))
+            if st['sp']['kw'] != [n for n in names if n in st['sp']['kw']]:
+                yield put(dict(st, sp=dict(st['sp'], kw=[n for n in names if n in st['sp']['kw']])))
 
 
-PRED_OPS = ('where', 'takeWhile', 'skipWhile', 'any', 'all', 'indexWhere', 'lastIndexWhere')
+PRED_OPS = ('where', 'takeWhile', 'skipWhile', 'any', 'all', 'indexWhere', 'lastIndexWhere', 'sliceWhere', 'splitWhere')
 
 
 def simple_bodies(st, key, n):
-    """plain one-probe lambdas that could stand in for the body `key` of stage `st`"""
+    """plain one-probe lambdas that could stand in for the body `key` of stage (or generated source) `st`"""
     two = st[key]['vars'] != ['$']
-    if key == 'pred' or key == 'body' and st['op'] in PRED_OPS:
-        texts = ['true', 'false'] + (['$1 < $2', '$2 > 15'] if two else ['$ > 2', '$ mod 2 = 0'])
+    if st.get('kind') == 'generate' and key == 'prod':
+        texts = ['($ + 1) mod 6']
+    elif st.get('kind') == 'generateMany' and key == 'prod':
+        texts = ['[($ + 1) mod 5]', '[]']
+    elif key == 'pred' or key == 'body' and st.get('op') in PRED_OPS:
+        texts = ['true', 'false'] + (['$1 < $2', '$2 > 15'] if two else ['$ > 2', '$ mod 2 = 0', '$ < 3'])
+    elif key == 'body3':
+        texts = ['len($)']
     else:
         texts = ['$1 + $2'] if two else ['$']
     for t in texts:
@@ -897,9 +1318,15 @@ def simple_bodies(st, key, n):
 
 
 def sub_bodies(p, counter):
+    src = p['src']
+    for key in ('pred', 'prod', 'sel'):
+        if src.get('kind', 'list') != 'list' and src.get(key) and not src[key]['text'].startswith('tick(9'):
+            counter[0] += 1
+            for b in simple_bodies(src, key, 900 + counter[0]):
+                yield dict(p, src=dict(src, **{key: b}))
     for i, st in enumerate(p['stages']):
-        for key in ('body', 'body2', 'pred', 'sel'):
-            if key in st and not st[key]['text'].startswith('tick(9'):
+        for key in ('body', 'body2', 'body3', 'pred', 'sel'):
+            if st.get(key) and not st[key]['text'].startswith('tick(9'):
                 counter[0] += 1
                 for b in simple_bodies(st, key, 900 + counter[0]):
                     yield dict(p, stages=p['stages'][:i] + [dict(st, **{key: b})] + p['stages'][i + 1:])
@@ -908,51 +1335,78 @@ def sub_bodies(p, counter):
                 yield dict(p, stages=p['stages'][:i] + [dict(st, other=q)] + p['stages'][i + 1:])
 
 
-def shrink_pipe(p, ctx, drv, kind):
-    p = shrink_pipe_shape(p, ctx, drv, kind)
+def shrink_pipe(p, ctx, drv, kind, key=None):
+    p = shrink_pipe_shape(p, ctx, drv, kind, key)
     counter = [0]
     changed = True
     while changed:
         changed = False
         for q in sub_bodies(p, counter):
-            if pipe_fails(q, ctx, drv, kind):
+            if pipe_fails(q, ctx, drv, kind, key):
                 p, changed = q, True
                 break
-    return shrink_pipe_shape(p, ctx, drv, kind)
+    return shrink_pipe_shape(p, ctx, drv, kind, key)
 
 
-def shrink_pipe_shape(p, ctx, drv, kind):
+def shrink_pipe_shape(p, ctx, drv, kind, key=None):
     changed = True
     while changed:
         changed = False
         for q in sub_pipes(p):
-            if pipe_fails(q, ctx, drv, kind):
+            if pipe_fails(q, ctx, drv, kind, key):
                 p, changed = q, True
                 break
     return p
 
 
+def probe_ids(x):
+    """every probe id that occurs in an X (fired or not)"""
+    if isinstance(x, dict):
+        return ([x['id']] if x.get('k') == 'tick' else []) + [i for v in x.values() for i in probe_ids(v)]
+    if isinstance(x, list):
+        return [i for v in x for i in probe_ids(v)]
+    return []
+
+
 def orderby_verdict(p, ctx):
-    """orderBy: the key selector is needed once per element (none for fewer than two elements); the order in which the
-    keys are taken is left open, so the oracle is a bound: no probe of the selector fires more often than once per
-    element it is evaluated on"""
-    text = pipe_text(p)
-    _, log, err = real_pipe(text, ctx)
+    """orderBy / thenBy: a key selector is needed at most once per element (none for fewer than two elements); the order
+    in which the keys are taken is left open, so the oracle is (a) a bound: no probe of a selector fires more often
+    than once per element it is evaluated on, none fires that the evaluation on no element fires; (b) the log does not
+    depend on how the selector is passed: by keyword, under another naming convention, or in its positional slot"""
+    text, conv = pipe_text(p), p.get('conv', 'camel')
+    where = '' if conv == 'camel' else ' (in a context of the %s naming convention)' % conv
+    _, log, err = real_pipe(text, conv_context(conv))
+    ptext = pipe_text(positional(p))
+    if ptext != text:
+        _, plog, perr = real_pipe(ptext, conv_context('camel'))
+        if perr is None and (err is not None or log != plog):
+            return ('oracle', 'spelling', '%s%s: %s; the same call with every argument in its positional slot, %s, logs %r: '
+                    'an argument of a lazily evaluated parameter must stay lazy when it is passed by keyword' % (
+                        text, where, 'raises ' + err if err is not None else 'real log %r' % (log,), ptext, plog)), \
+                dict(text=text)
     if err is not None:
         raise Bad(err)
     d = Describe(ctx)
-    body = p['stages'][-1]['body']
-    elems = RefEval(ctx).run(dict(p, stages=p['stages'][:-1]))
+    k = len([st for st in p['stages'] if st['op'] in ORDER_OPS])
+    elems = RefEval(ctx).run(dict(p, stages=p['stages'][:-k]))
     bound = {}
-    for v in elems:
-        for i in py_trace(d.x(body, v)):
-            bound[i] = bound.get(i, 0) + 1
+    for st in p['stages'][-k:]:
+        for i in probe_ids(st['body']['x']):
+            bound[i] = 0
+        for v in elems:
+            for i in py_trace(d.x(st['body'], v)):
+                bound[i] += 1
     own = [i for i in log if i in bound]
     over = sorted(i for i in bound if own.count(i) > bound[i])
+    if over and not elems:
+        return ('oracle', 'orderBy-key-without-element',
+                '%s%s: nothing to sort, but the probes %r inside the key selector fired (log %r): a per-element lambda runs '
+                'once per element consumed' % (text, where, over, log)), dict(text=text)
     if over:
         return ('oracle', 'orderBy-key-reevaluated',
-                '%s: %d elements, but the probes %r inside the key selector fired %r times (log %r): the selector runs '
-                'more than once per element' % (text, len(elems), over, [own.count(i) for i in over], log)), dict(text=text)
+                '%s%s: %d elements, but the probes %r inside the key selector fired %r times (log %r): the selector runs '
+                'more than once per element' % (text, where, len(elems), over, [own.count(i) for i in over], log)), \
+            dict(text=text)
     return None, dict(text=text)
 
 
@@ -968,11 +1422,29 @@ HAND = [
 ]
 
 
+def bump(hist, key, n=1):
+    hist[key] = hist.get(key, 0) + n
+
+
+def spelling_hist(hist, p, top=True):
+    """how the arguments of the lazily evaluated parameters of a pipeline are passed"""
+    conv = p.get('conv', 'camel') if top else None
+    for d, sn in [(p['src'], src_names(p['src']))] if p['src'].get('sp') else []:
+        yield from ((p['src']['kind'], k, n in d['sp']['kw']) for k, n, pr in sn if pr and isinstance(d.get(k), dict))
+    for st in p['stages']:
+        if st.get('sp') is not None:
+            for k, n, pr in stage_names(st):
+                if pr and k != 'other' and isinstance(st.get(k), dict):
+                    yield (st.get('as') or PE_NAMES.get(st['op'], st['op']), n, n in st['sp']['kw'])
+        if st.get('other'):
+            yield from spelling_hist(hist, st['other'], False)
+
+
 def run_pipes(env, res, rng0, ctxs, hist, rp):
     """the per-element part: pipelines of streaming operators with probes inside their lambdas"""
     drv, tier = env['driver'], env['tier']
     rng = common.make_rng(env['seed'], 'C11-pipes')
-    ctx = ctxs[3]
+    ctx = conv_context('camel')
     todo = []            # (spec, precomputed case)
     if rp is not None:
         if not rp.get('pipe'):
@@ -980,8 +1452,8 @@ def run_pipes(env, res, rng0, ctxs, hist, rp):
         specs_ = [rp['pipe']]
     else:
         specs_ = None
-    n = 2600 if tier == 'quick' else 25000
-    n_order = 150 if tier == 'quick' else 2000
+    n = 2600 if tier == 'quick' else 16000
+    n_order = 220 if tier == 'quick' else 2000
     tries = 0
     while (specs_ is None and len(todo) < n and tries < 4 * n) or (specs_ and tries < len(specs_)):
         tries += 1
@@ -989,52 +1461,378 @@ def run_pipes(env, res, rng0, ctxs, hist, rp):
             p = specs_[tries - 1]
         else:
             pg = PipeGen(rng, ctx, 2 if tier == 'quick' else 3)
-            p = pg.pipe(rng.choice([1, 1, 2, 2, 3, 4]), terminal_ok=True)
-        if p['stages'] and p['stages'][-1]['op'] == 'orderBy':
+            p = pg.pipe(rng.choice([1, 1, 2, 2, 3, 4]), terminal_ok=True, conv='python' if rng.random() < 0.3 else 'camel')
+        if p['stages'] and p['stages'][-1]['op'] in ORDER_OPS:
             todo.append((p, None))
             continue
         try:
             c = pipe_case(p, ctx)
         except Bad:
-            hist['pipe-regenerated'] = hist.get('pipe-regenerated', 0) + 1
+            bump(hist, 'pipe-regenerated')
             continue
         todo.append((p, c))
     if specs_ is None:
         for _ in range(n_order):
             pg = PipeGen(rng, ctx, 1)
-            p = pg.pipe(rng.choice([0, 0, 1]), allow_second=False)
-            p['stages'].append(dict(op='orderBy', body=pg.body('I', '$')))
+            p = pg.order_pipe()
+            p['conv'] = 'python' if rng.random() < 0.3 else 'camel'
             todo.append((p, None))
     mlogs = iter(ask_pipes(drv, [c['table'] for _, c in todo if c is not None]))
     for p, c in todo:
+        for name, param, kw in spelling_hist(hist, p):
+            bump(hist, 'lazy-arg:%s.%s:%s' % (name, param, 'keyword' if kw else 'positional'))
+            if kw:
+                bump(hist, 'lazy-by-keyword:%s' % p.get('conv', 'camel'))
         if c is None:
             try:
                 f, info = orderby_verdict(p, ctx)
             except Bad:
                 continue
-            hist['pipe-op:orderBy'] = hist.get('pipe-op:orderBy', 0) + 1
+            for st in p['stages']:
+                if st['op'] in ORDER_OPS:
+                    bump(hist, 'pipe-op:' + st['op'])
             res.case(info['text'], True)
             if f and len([x for x in res.failures if x.key == f[1]]) < 2:
                 res.fail(f[0], f[1], f[2], dict(pipe=p, text=info['text']))
             continue
         ml = next(mlogs)
         f, info = pipe_verdict(p, ctx, ml, c)
-        partial = any(st['op'] in ('take', 'any', 'all', 'indexWhere', 'first', 'anyNoPred', 'takeWhile', 'zip')
+        partial = any(st['op'] in ('take', 'any', 'all', 'indexWhere', 'first', 'anyNoPred', 'allNoPred', 'takeWhile', 'zip')
                       for st in p['stages'])
         res.case(c['text'], len(c['ref_log']) >= 2, sample=c['text'] if len(res.samples) < 6 and len(c['ref_log']) > 3 else None)
         if ml is not None:
             res.traces += 1
+        if p['src'].get('kind', 'list') != 'list':
+            bump(hist, 'pipe-source:' + p['src']['kind'])
         for st in p['stages']:
-            hist['pipe-op:' + st['op']] = hist.get('pipe-op:' + st['op'], 0) + 1
+            bump(hist, 'pipe-op:' + (st.get('as') or st['op']))
             if st.get('other'):
-                hist['pipe-second-arg-lazy'] = hist.get('pipe-second-arg-lazy', 0) + bool(st['other']['stages'])
-        hist['pipe-partial' if partial else 'pipe-full'] = hist.get('pipe-partial' if partial else 'pipe-full', 0) + 1
-        hist['pipe-log-len:%d' % min(len(c['ref_log']) // 4 * 4, 24)] = hist.get('pipe-log-len:%d' % min(len(c['ref_log']) // 4 * 4, 24), 0) + 1
+                bump(hist, 'pipe-second-arg-lazy', bool(st['other']['stages']))
+        bump(hist, 'pipe-conv:' + p.get('conv', 'camel'))
+        if not c['ref_log']:
+            bump(hist, 'pipe-nothing-fires')
+        bump(hist, 'pipe-partial' if partial else 'pipe-full')
+        bump(hist, 'pipe-log-len:%d' % min(len(c['ref_log']) // 4 * 4, 24))
         if f:
-            small = shrink_pipe(p, ctx, drv, f[0])
-            g = pipe_fails(small, ctx, drv, f[0]) or f
+            small = shrink_pipe(p, ctx, drv, f[0], f[1])
+            g = pipe_fails(small, ctx, drv, f[0], f[1]) or f
             res.fail(g[0], g[1], g[2], dict(pipe=small, text=pipe_text(small)))
-            if len([x for x in res.failures if x.key.startswith('per-element')]) >= 6:
+            if len([x for x in res.failures if x.key.startswith('per-element') or x.key == 'spelling']) >= 6:
+                break
+
+
+# ------------------------------------------------------------------ single calls with a lambda per match / per common key
+#
+# mergeWith (listMerger / itemMerger once per key the two dictionaries share, in the order of the receiver), search
+# (selector once if the expression matches), searchAll (once per match), replaceBy in both directions (repl once per
+# replaced match).  The reference is a plain-Python transcription of the documented meaning that lists the
+# applications; the model side is `Yaql.EvalOrder.trace` of the eager node holding these applications in order.
+
+CALL_KINDS = ['mergeWith', 'search', 'searchAll', 'replaceBy', 'replaceByString']
+CALL_SLOTS = {'mergeWith': ['d2', 'lm', 'im', 'maxLevels'], 'search': ['string', 'sel'], 'searchAll': ['string', 'sel'],
+              'replaceBy': ['string', 'repl', 'count'], 'replaceByString': ['regexp', 'repl', 'count']}
+
+
+def call_entry(spec, conv):
+    k = spec['kind']
+    if k == 'mergeWith':
+        return spell().entry(conv, 'mergeWith', method=True)
+    if k == 'replaceByString':
+        return spell().entry(conv, 'replaceBy', method=True, first='string')
+    return spell().entry(conv, k, method=True, first='regexp')
+
+
+def call_names(spec):
+    e = call_entry(spec, 'camel')
+    return [(k, n, spec.get(k) is not None) for k, n in zip(CALL_SLOTS[spec['kind']], e.argnames(True))]
+
+
+class CallGen:
+    def __init__(self, rng, ctx, depth):
+        self.rng, self.g, self.depth = rng, LamGen(rng, ctx, depth), depth
+
+    def body(self, ty, var, vars_):
+        b = self.g.body(ty, var, self.rng.randrange(0, self.depth + 1))
+        b['vars'] = vars_
+        return b
+
+    def newid(self):
+        self.g.n += 1
+        return self.g.n
+
+    def make(self, conv):
+        r = self.rng
+        kind = r.choice(CALL_KINDS)
+        spec = dict(kind=kind, conv=conv, ids={})
+        if kind == 'mergeWith':
+            keys = ['a', 'b', 'c', 'd']
+            mk = lambda k: [r.choice([1, 2, 3]) for _ in range(r.choice([0, 1, 2]))] if k in 'bd' else r.choice([1, 2, 5])
+            spec['d1'] = [(k, mk(k)) for k in keys if r.random() < 0.6]
+            spec['d2'] = [(k, mk(k)) for k in r.sample(keys, 4) if r.random() < 0.6]
+            for side in ('d1', 'd2'):
+                spec['ids'][side] = [self.newid() if r.random() < 0.25 else None for _ in spec[side]]
+            if r.random() < 0.7:
+                spec['lm'] = self.body('I', r.choice(['len($1)', 'len($2)']), ['$1', '$2'])
+            if r.random() < 0.8:
+                spec['im'] = self.body('I', r.choice(['$1', '$2']), ['$1', '$2'])
+            if r.random() < 0.4:
+                spec['maxLevels'] = r.choice([0, 1, 2])
+        else:
+            spec['pattern'] = r.choice(['[ab]', 'a', 'b+', 'x', '(a)(b)?', 'c'])
+            spec['text'] = r.choice(['abcab', 'bbb', '', 'cab', 'aab'])
+            ty, var = ('S', '$.value') if kind.startswith('replaceBy') else r.choice([('I', '$.start'), ('I', '$.end'),
+                                                                                      ('S', '$.value')])
+            b = self.body(ty, var, ['$'])
+            if kind.startswith('replaceBy'):
+                spec['repl'] = b
+                if r.random() < 0.5:
+                    spec['count'] = r.choice([0, 1, 2])
+            elif r.random() < 0.85:
+                spec['sel'] = b
+            spec['string' if kind != 'replaceByString' else 'regexp'] = True
+        for k in ('string', 'regexp', 'receiver', 'count', 'maxLevels'):
+            if (k == 'receiver' or spec.get(k) is not None) and r.random() < 0.3:
+                spec['ids'][k] = self.newid()
+        spec['sp'] = c11spell.spelling(r, call_entry(spec, 'camel'), [n for _, n, _ in call_names(spec)],
+                                       [pr for _, _, pr in call_names(spec)])
+        return spec
+
+
+def lit(v, i=None):
+    t = json.dumps(v).replace('"', "'") if not isinstance(v, str) else "'%s'" % v
+    return 'tick(%d, %s)' % (i, t) if i else t
+
+
+def dict_text(items, ids):
+    return '{%s}' % ', '.join('%s => %s' % (k, lit(v, i)) for (k, v), i in zip(items, ids))
+
+
+def call_text(spec, conv=None):
+    conv = conv or spec.get('conv', 'camel')
+    e, sn, ids, kind = call_entry(spec, conv), call_names(spec), spec['ids'], spec['kind']
+    rx = 'regex(%s)' % lit(spec['pattern'], ids.get('regexp' if kind == 'replaceByString' else 'receiver')) \
+        if kind != 'mergeWith' else None
+    st = lit(spec['text'], ids.get('receiver' if kind == 'replaceByString' else 'string')) if kind != 'mergeWith' else None
+    texts = []
+    for k, _, present in sn:
+        if not present:
+            texts.append(None)
+        elif k == 'd2':
+            texts.append(dict_text(spec['d2'], ids['d2']))
+        elif k in ('lm', 'im', 'sel', 'repl'):
+            texts.append(conv_text(spec[k]['text'], conv))
+        elif k in ('count', 'maxLevels'):
+            texts.append(lit(spec[k], ids.get(k)))
+        else:
+            texts.append(st if k == 'string' else rx)
+    recv = dict_text(spec['d1'], ids['d1']) if kind == 'mergeWith' else st if kind == 'replaceByString' else rx
+    return '%s.%s(%s)' % (recv, e.name, c11spell.write_args(e, [n for _, n, _ in sn], texts, sp_of(spec, sn)))
+
+
+def call_ref(spec, ctx):
+    """-> (the probes of the eager arguments in the order they fire, [(body, argument values)..] the applications of
+    the lambdas in order, the value)"""
+    import re as _re
+    ids, kind, sn = spec['ids'], spec['kind'], call_names(spec)
+    val = lambda b, *a: freeze(ev(b['text'], ctx, dict(zip(b['vars'], a))))
+    apps = []
+    if kind == 'mergeWith':
+        eager = [i for i in ids['d1'] if i]
+        for n in c11spell.eager_order([n for _, n, _ in sn], sp_of(spec, sn)):
+            k = [kk for kk, nn, _ in sn if nn == n][0]
+            eager += [i for i in ids['d2'] if i] if k == 'd2' else [ids[k]] if ids.get(k) else []
+        d2 = dict(spec['d2'])
+        out = {}
+        for k, v1 in spec['d1']:
+            out[k] = freeze(v1)
+            if k in d2:
+                v2 = d2[k]
+                which = 'lm' if spec.get('maxLevels') != 1 and isinstance(v2, list) else 'im'
+                if spec.get(which):
+                    apps.append((spec[which], (freeze(v1), freeze(v2))))
+                    out[k] = val(spec[which], freeze(v1), freeze(v2))
+                elif which == 'im':
+                    out[k] = freeze(v2)
+                else:
+                    seen = []
+                    for x in list(v1) + list(v2):
+                        if x not in seen:
+                            seen.append(x)
+                    out[k] = tuple(seen)
+        for k, v2 in spec['d2']:
+            out.setdefault(k, freeze(v2))
+        return eager, apps, out
+    eager = [ids['receiver']] if ids.get('receiver') else []
+    for n in c11spell.eager_order([n for _, n, _ in sn], sp_of(spec, sn)):
+        k = [kk for kk, nn, _ in sn if nn == n][0]
+        eager += [ids[k]] if ids.get(k) else []
+    rx = _re.compile(spec['pattern'])
+    rec = lambda m: dict(value=m.group(), start=m.start(0), end=m.end(0))
+    if kind == 'search':
+        m = rx.search(spec['text'])
+        if m is None:
+            return eager, apps, None
+        if not spec.get('sel'):
+            return eager, apps, m.group()
+        apps.append((spec['sel'], (rec(m),)))
+        return eager, apps, val(spec['sel'], rec(m))
+    if kind == 'searchAll':
+        out = []
+        for m in rx.finditer(spec['text']):
+            if spec.get('sel'):
+                apps.append((spec['sel'], (rec(m),)))
+                out.append(val(spec['sel'], rec(m)))
+            else:
+                out.append(m.group())
+        return eager, apps, tuple(out)
+
+    def repl(m):
+        apps.append((spec['repl'], (rec(m),)))
+        v = val(spec['repl'], rec(m))
+        if not isinstance(v, str):
+            raise Bad('replacement %r' % (v,))
+        return v
+    return eager, apps, rx.sub(repl, spec['text'], spec.get('count') or 0)
+
+
+def call_case(spec, ctx):
+    """-> dict(text, ref_log, ref_value, x): x = the eager node of the probes and applications in order"""
+    eager, apps, value = call_ref(spec, ctx)
+    ks = [dict(k='tick', id=i, a=LEAF) for i in eager]
+    for b, args in apps:
+        env = dict(zip(b['vars'], args))
+        ks.append(inst(b['x'], lambda fl: flagval(fl, ctx, env)))
+    x = dict(k='eager', ks=ks)
+    return dict(text=call_text(spec), ref_log=py_trace(x), ref_value=value, x=x, conv=spec.get('conv', 'camel'), napps=len(apps))
+
+
+def call_plain(spec):
+    sn = call_names(spec)
+    present = [pr for _, _, pr in sn]
+    gap = present.index(False) if False in present else len(present)
+    return dict(spec, conv='camel', sp=dict(npos=gap, kw=[n for i, (_, n, pr) in enumerate(sn) if i >= gap and pr]))
+
+
+def call_verdict(spec, ctx, model_log, c=None):
+    c = c or call_case(spec, ctx)
+    value, log, err = real_pipe(c['text'], conv_context(c['conv']))
+    where = '' if c['conv'] == 'camel' else ' (in a context of the %s naming convention)' % c['conv']
+    if err is not None or log != c['ref_log']:
+        ptext = call_text(call_plain(spec))
+        if ptext != c['text']:
+            _, plog, perr = real_pipe(ptext, conv_context('camel'))
+            if perr is None and plog == c['ref_log']:
+                return ('oracle', 'spelling', '%s%s: %s; the same call with every argument in its positional slot, %s, logs '
+                        '%r, which is the lambda once per match / per common key: an argument of a lazily evaluated '
+                        'parameter must stay lazy when it is passed by keyword' % (
+                            c['text'], where, 'raises ' + err if err is not None else 'real log %r' % (log,), ptext, plog))
+    if err is not None:
+        return ('oracle', 'call-raises', '%s%s: raises %s; the reference gives %r with log %r' % (
+            c['text'], where, err, c['ref_value'], c['ref_log']))
+    if log != c['ref_log']:
+        return ('oracle', 'per-application', '%s%s: real log %r; the eager arguments once in order, then the lambda once '
+                'per match / per common key gives %r' % (c['text'], where, log, c['ref_log']))
+    if canon_value(value) != canon_value(c['ref_value']):
+        return ('mismatch', 'call-value', '%s: real value %r, transcription %r (the harness applies the lambda to the '
+                'wrong things)' % (c['text'], value, c['ref_value']))
+    if model_log is not None and model_log != c['ref_log']:
+        return ('mismatch', 'model', '%s: Lean trace %r, transcription %r' % (c['text'], model_log, c['ref_log']))
+    return None
+
+
+def sub_calls(spec, counter):
+    if spec.get('conv', 'camel') != 'camel':
+        yield dict(spec, conv='camel')
+    sn = call_names(spec)
+    for k in ('count', 'maxLevels', 'sel', 'lm', 'im'):
+        if spec.get(k) is not None and (k in ('count', 'maxLevels') or spec['kind'] != 'search' or k != 'sel'):
+            q = {kk: v for kk, v in spec.items() if kk != k}
+            q['ids'] = {kk: v for kk, v in spec['ids'].items() if kk != k}
+            yield respell(q, call_names(q))
+    if any(v for v in spec['ids'].values() if not isinstance(v, list)):
+        yield dict(spec, ids={k: v for k, v in spec['ids'].items() if isinstance(v, list)})
+    for side in ('d1', 'd2'):
+        for i in range(len(spec.get(side, []))):
+            yield dict(spec, **{side: spec[side][:i] + spec[side][i + 1:]},
+                       ids=dict(spec['ids'], **{side: spec['ids'][side][:i] + spec['ids'][side][i + 1:]}))
+        if any(spec['ids'].get(side, [])):
+            yield dict(spec, ids=dict(spec['ids'], **{side: [None] * len(spec[side])}))
+    if spec.get('text'):
+        yield dict(spec, text=spec['text'][:-1])
+    names = [n for _, n, _ in sn]
+    sp = sp_of(spec, sn)
+    if sp['kw'] and sp['npos'] < len(names) and names[sp['npos']] in sp['kw']:
+        yield dict(spec, sp=dict(npos=sp['npos'] + 1, kw=[n for n in sp['kw'] if n != names[sp['npos']]]))
+    for k in ('sel', 'repl', 'lm', 'im'):
+        if spec.get(k) and not spec[k]['text'].startswith('tick(9'):
+            counter[0] += 1
+            t = {'sel': '$.start', 'repl': '$.value', 'lm': 'len($1) + len($2)', 'im': '$1 + $2'}[k]
+            n = 900 + counter[0]
+            yield dict(spec, **{k: dict(text='tick(%d, %s)' % (n, t), x=dict(k='tick', id=n, a=LEAF), vars=spec[k]['vars'])})
+
+
+def shrink_call(spec, ctx, drv, f):
+    def fails(q):
+        try:
+            c = call_case(q, ctx)
+            ml = drv.ask(dict(p='C11', xs=[c['x']]))['traces'][0] if drv else None
+            g = call_verdict(q, ctx, ml, c)
+        except Exception:
+            return None
+        return g if g and g[:2] == f[:2] else None
+    counter = [0]
+    changed = True
+    while changed:
+        changed = False
+        for q in sub_calls(spec, counter):
+            if fails(q):
+                spec, changed = q, True
+                break
+    return spec, fails(spec) or f
+
+
+def run_calls(env, res, hist, rp):
+    drv, tier = env['driver'], env['tier']
+    rng = common.make_rng(env['seed'], 'C11-calls')
+    ctx = conv_context('camel')
+    todo = []
+    if rp is not None:
+        if not rp.get('call'):
+            return
+        todo = [(rp['call'], call_case(rp['call'], ctx))]
+    n = 700 if tier == 'quick' else 5000
+    tries = 0
+    while rp is None and len(todo) < n and tries < 4 * n:
+        tries += 1
+        spec = CallGen(rng, ctx, 2 if tier == 'quick' else 3).make('python' if rng.random() < 0.3 else 'camel')
+        try:
+            todo.append((spec, call_case(spec, ctx)))
+        except Bad:
+            bump(hist, 'call-regenerated')
+    mlogs = [None] * len(todo)
+    if drv:
+        mlogs = []
+        for i in range(0, len(todo), 300):
+            mlogs += drv.ask(dict(p='C11', xs=[c['x'] for _, c in todo[i:i + 300]]))['traces']
+    for (spec, c), ml in zip(todo, mlogs):
+        res.case(c['text'], len(c['ref_log']) >= 2)
+        if ml is not None:
+            res.traces += 1
+        bump(hist, 'call:' + spec['kind'])
+        bump(hist, 'call-conv:' + spec.get('conv', 'camel'))
+        bump(hist, 'call-applications:%d' % min(c['napps'], 4))
+        sn = call_names(spec)
+        for k, nm, pr in sn:
+            if pr and isinstance(spec.get(k), dict):
+                kw = nm in sp_of(spec, sn)['kw']
+                bump(hist, 'lazy-arg:%s.%s:%s' % (call_entry(spec, 'camel').name, nm, 'keyword' if kw else 'positional'))
+                if kw:
+                    bump(hist, 'lazy-by-keyword:%s' % spec.get('conv', 'camel'))
+        f = call_verdict(spec, ctx, ml, c)
+        if f:
+            small, g = shrink_call(spec, ctx, drv, f)
+            res.fail(g[0], g[1], g[2], dict(call=small, text=call_text(small)))
+            if len([x for x in res.failures if x.replay and x.replay.get('call')]) >= 4:
                 break
 
 
@@ -1043,24 +1841,28 @@ def run(env, res):
     tier = env['tier']
     rng = common.make_rng(env['seed'], 'C11')
     rp = None
-    n = 15000 if tier == 'quick' else 150000
+    n = 15000 if tier == 'quick' else 100000
     max_depth = 3 if tier == 'quick' else 4
     res.rule = ('typed random expressions of depth <= %d with a numbered probe in every operand position (operators, list/map '
-                'literals, indexer, method and keyword calls, library functions, every short-circuit function, a user '
-                'function with 1-6 overloads); distinct = distinct expression text; non-trivial = at least 3 probes and one '
-                'lazy operator or a call of the overloaded function. Plus pipelines of 1-4 streaming operators over a list '
-                'literal with such expressions as per-element lambdas, lazy pipelines as second collection of join/zip/concat, '
-                'consumed completely or partly (non-trivial = at least 2 probe events)' % max_depth)
-    ctxs = {k: make_context(k) for k in range(1, 7)}
+                'literals, indexer, method and keyword calls, library functions, every short-circuit function, def and assert '
+                'in every spelling, a user function with 1-6 overloads); distinct = distinct expression text; non-trivial = at '
+                'least 3 probes and one lazy operator or a call of the overloaded function. Plus pipelines of 1-4 streaming '
+                'operators over a list literal or a generating source (generate / generateMany) with such expressions as '
+                'per-element lambdas, lazy pipelines as second collection of join/zip/concat, consumed completely or partly '
+                '(non-trivial = at least 2 probe events); plus single calls of mergeWith / search / searchAll / replaceBy. '
+                'Every argument is written positionally or by keyword (the alias of the live registry; a shuffled suffix of '
+                'the parameters), in a context of the camelCase or of the Python naming convention' % max_depth)
+    ctxs = {k: conv_context('camel', k) for k in range(1, 7)}
     hist = {}
     cases = []
     if env['replay']:
         rp = json.load(open(env['replay']))['case']
-        cases = [(rp['text'], rp['x'], rp.get('overloads', 3))] if not rp.get('pipe') else []
+        cases = [(rp['text'], rp['x'], rp.get('overloads', 3), rp.get('conv', 'camel'))] if not (
+            rp.get('pipe') or rp.get('call')) else []
     else:
         for text, x in HAND:
             for k in (1, 6):
-                cases.append((text, x, k))
+                cases.append((text, x, k, 'camel'))
         tries = 0
         while len(cases) < n + len(HAND) * 2 and tries < n * 5:
             tries += 1
@@ -1069,39 +1871,47 @@ def run(env, res):
             try:
                 text, x = g.expr(rng.choice('IBSLNA'), rng.randrange(1, max_depth + 1))
             except Bad:
-                hist['regenerated'] = hist.get('regenerated', 0) + 1
+                bump(hist, 'regenerated')
                 continue
             for f in g.features:
-                hist['op:' + f] = hist.get('op:' + f, 0) + 1
-            cases.append((text, x, k))
+                bump(hist, 'op:' + f)
+            cases.append((text, x, k, 'python' if rng.random() < 0.2 else 'camel'))
     model = None
     if drv:
         model = []
         for i in range(0, len(cases), 500):
             model += drv.ask(dict(p='C11', xs=[c[1] for c in cases[i:i + 500]]))['traces']
-    if env['replay'] and rp.get('pipe'):
+    if env['replay'] and (rp.get('pipe') or rp.get('call')):
         cases = []
     run_pipes(env, res, rng, ctxs, hist, rp if env['replay'] else None)
-    for ci, (text, x, k) in enumerate(cases):
+    run_calls(env, res, hist, rp if env['replay'] else None)
+    for ci, (text0, x, k, conv) in enumerate(cases):
         exp = py_trace(x)
-        lazy = any(s in text for s in (' and ', ' or ', '?.', 'switch', 'selectCase', 'selectAllCases', 'examine',
-                                       'coalesce'))
+        text = conv_text(text0, conv)
+        lazy = any(s in text0 for s in (' and ', ' or ', '?.', 'switch', 'selectCase', 'selectAllCases', 'examine',
+                                        'coalesce', 'def(', '.assert('))
         res.case(text, len(exp) >= 3 and (lazy or 'g(' in text), sample=text if ci in (8, 9, 10) else None)
-        case = dict(text=text, x=x, overloads=k)
-        log, err = real_log(text, ctxs[k])
-        hist['overloads:%d' % k] = hist.get('overloads:%d' % k, 0) + 1
+        case = dict(text=text0, x=x, overloads=k, conv=conv)
+        where = '' if conv == 'camel' else ', context of the %s naming convention' % conv
+        log, err = real_log(text, conv_context(conv, k))
+        bump(hist, 'overloads:%d' % k)
+        bump(hist, 'conv:' + conv)
         if err is not None:
-            hist['raised:' + err] = hist.get('raised:' + err, 0) + 1
+            bump(hist, 'raised:' + err)
+            if conv != 'camel' and real_log(text0, ctxs[k])[1] is None:
+                res.fail('oracle', 'convention', '%s%s: raises %s, while %s is evaluated in a context of the default '
+                         'convention' % (text, where, err, text0), case)
             continue
-        hist['log-len:%d' % min(len(log), 12)] = hist.get('log-len:%d' % min(len(log), 12), 0) + 1
+        bump(hist, 'log-len:%d' % min(len(log), 12))
         if log != exp:
             key = 'double-evaluation' if len(set(log)) < len(log) else 'order'
-            res.fail('oracle', key, '%s (g has %d overloads): real log %r, reference order %r' % (text, k, log, exp), case)
+            res.fail('oracle', key, '%s (g has %d overloads%s): real log %r, reference order %r' % (
+                text, k, where, log, exp), case)
         if 'g(' in text:
             # the log must not depend on the number of overloads of g
             for k2 in (1, 6):
                 if k2 != k:
-                    log2, err2 = real_log(text, ctxs[k2])
+                    log2, err2 = real_log(text, conv_context(conv, k2))
                     if err2 is None and log2 != log:
                         res.fail('oracle', 'grows-with-overloads', '%s: log %r with %d overloads of g, %r with %d' % (
                             text, log, k, log2, k2), case)
@@ -1117,18 +1927,31 @@ def run(env, res):
 
 LEVEL_TEXT = ('Lean 4: the evaluation log of the resolver model is one left-to-right pass over the eager non-constant '
               'arguments, positional then keyword, under the common laziness signature (eager_once_in_order), and does not '
-              'depend on the number of candidates (log_independent_of_candidates); over the evaluation-order model: '
+              'depend on the number of candidates (log_independent_of_candidates); laziness is decided by the parameter an '
+              'argument is bound to, not by its spelling: map_args binds the last positional argument and the same argument '
+              'passed by keyword under the alias to the same parameter (C11Spell.mapArgs_kw_move), and for a lazy parameter '
+              'the two calls have the same outcome - evaluation log and bound vector (C11Spell.lazy_spelling_invariant; '
+              'side conditions from the registry table: lazy_spelling_invariant_of_table; for a whole family of overloads '
+              'that own the slot with a lazy parameter of that name: lazy_spelling_invariant_family); over the '
+              'evaluation-order model: '
               'eager_fragment_trace and the short_circuit_* theorems; C11Gen.lazy_params / lazy_functions re-prove on the '
-              'regenerated registry that the lazy parameters are where the model assumes; over the per-element model '
-              '(Yaql.PerElem: streams of probe deltas, stages with reactions): conservation of the log for every stage '
+              'regenerated registry that the lazy parameters are where the model assumes, C11Gen.lazy_keyword_spelling that '
+              'every lazy parameter has an unambiguous keyword spelling under every naming convention; over the per-element '
+              'model (Yaql.PerElem: streams of probe deltas, stages with reactions): conservation of the log for every stage '
               '(runOn_log), per_element_total / per_element (an operator that applies its lambda fires, for each input element '
               'consumed and in input order, the probes of pulling it and of the lambda body on it, once - for the whole result '
               'and for its first k+1 results; nothing of the elements behind), take_log (a consumer of k results consumes '
               'exactly k), instances for select/where/distinct/takeWhile/skipWhile/selectMany/any/all/indexWhere/first/'
-              'accumulate/zip/concat/join (join_pass_events, join_empty_outer). Tie: generated probe expressions and '
-              'pipelines evaluated by the real engine, log compared with the predicted trace; C05/C06 tie the resolver model.')
+              'accumulate/zip/concat/join (join_pass_events, join_empty_outer). Tie: generated probe expressions, pipelines '
+              'and single calls, every argument written positionally or by keyword, in contexts of the camelCase and of the '
+              'Python convention, evaluated by the real engine, log compared with the predicted trace; C05/C06 tie the '
+              'resolver model.')
 LEVEL_NOTE = ('trusted: Lean kernel; Model/EvalOrder.lean, Resolve.lean; the generator\'s bookkeeping (operand truthiness '
               'taken from separate real evaluations); Model/PerElem.lean and the harness\'s eager table of per-element facts; '
-              'the lazy transcription RefEval as the reference for the per-element clause.')
+              'the lazy transcription RefEval as the reference for the per-element clause; harness/c11spell.py (aliases read '
+              'from live contexts). lazy_spelling_invariant_family asks every visible candidate to own the moved slot with a '
+              'lazy parameter of the keyword\'s name (without that, map_args - which does not type-check keywords of named '
+              'parameters - can keep a candidate in one spelling that it drops in the other: example in C11Spell, notes/C12.md); '
+              'the last positional argument is moved (a suffix of arguments is the iteration).')
 TECHNIQUE = 'Lean 4 proof + generated registry facts + differential trace comparison with numbered probes'
 DESIGN_REF = 'DESIGN.md section 5, C11'
